@@ -235,6 +235,12 @@ pub struct Exec<'a, RK: RadioKind> {
     pub violation: Option<Violation>,
 }
 
+/// VERIF_DEBUG=1 turns some "statement is silent" probes into reportable events (harness development only).
+fn debug_flag() -> bool {
+    static F: std::sync::OnceLock<bool> = std::sync::OnceLock::new();
+    *F.get_or_init(|| std::env::var("VERIF_DEBUG").is_ok())
+}
+
 fn has(case: &C14Case, tag: &str) -> bool {
     case.avoid.iter().any(|t| t == tag)
 }
@@ -546,6 +552,9 @@ impl<'a, RK: RadioKind> Exec<'a, RK> {
                 }
             } else if res == Res::Refused {
                 self.stats.bump("probe.right-mode-refused");
+                if debug_flag() {
+                    self.violate("C14.debug-right-mode-refused", format!("{fam}|{}", step.op.name()), format!("ref {:?} hook {:?}", before_ref, hm0));
+                }
             }
         }
         if res == Res::Refused {
@@ -561,7 +570,8 @@ impl<'a, RK: RadioKind> Exec<'a, RK> {
 
         // ---- monitor (d): chip-reported failure => chip in standby and the driver knows it ----
         let hm1 = self.hook_mode();
-        if res.chip_reported_failure() && !log.fault_fired && hm0 != M::RxContinuous {
+        let rx_op = matches!(step.op, Op::CompleteRx { .. } | Op::Rx { .. } | Op::LwRxSingle { .. } | Op::LwRxContinuous { .. });
+        if res.chip_reported_failure() && !log.fault_fired && !(rx_op && hm0 == M::RxContinuous) {
             self.stats.bump("probe.chip-reported-failure");
             let chip_sb = self.chip_standby();
             if !chip_sb || hm1 != M::Standby {
@@ -621,7 +631,7 @@ impl<'a, RK: RadioKind> Exec<'a, RK> {
                 (Op::Listen { .. }, Res::Ok) => Some(M::Listen),
                 (Op::PrepCad { .. }, Res::Ok) => Some(M::Cad),
                 (_, r) if r.chip_reported_failure() => {
-                    if before == M::RxContinuous {
+                    if rx_op && before == M::RxContinuous {
                         before_ref
                     } else {
                         Some(M::Standby)
@@ -630,6 +640,13 @@ impl<'a, RK: RadioKind> Exec<'a, RK> {
                 _ => None,
             }
         };
+        if debug_flag() {
+            if let Some(r) = self.ref_mode {
+                if r != hm1 {
+                    self.violate("C14.debug-ref-vs-hook", format!("{fam}|{}|{:?}|{:?}", step.op.name(), r, hm1), format!("after {:?} -> {:?}: reference mode {:?}, driver mode {:?}", step.op, res, r, hm1));
+                }
+            }
+        }
         if matches!(step.op, Op::LwSetupRx { .. }) && res == Res::Ok {
             self.lw_rx_set = true;
         }
